@@ -42,10 +42,19 @@ func childMain(mode string) {
 	ctx, cancel := context.WithCancel(context.Background())
 	// the four listener stackings: plain, TLS (the PROXY header travels in clear BEFORE the handshake), rate-limited
 	// (ratelimit.NewListener on top of the PROXY-protocol listener), rate-limited + TLS
-	start := func(withTLS, limited bool) string {
+	start := func(withTLS, limited bool) string { return startProxy(ctx, withTLS, limited, e2eHeaderTimeout) }
+	_ = start
+	fmt.Printf("READY %s %s %s %s %s %s\n", start(false, false), ol.Addr().String(), start(true, false), start(false, true), start(true, true),
+		startProxy(ctx, false, false, 0)) // the last one: --proxy-protocol-read-header-timeout 0 = no limit
+	io.Copy(io.Discard, os.Stdin) // parent closes stdin to stop us
+	cancel()
+}
+
+func startProxy(ctx context.Context, withTLS, limited bool, headerTimeout time.Duration) string {
+	{
 		cfg := forwarder.DefaultHTTPProxyConfig()
 		cfg.ListenerConfig = *forwarder.DefaultListenerConfig("127.0.0.1:0")
-		cfg.ProxyProtocolConfig = &forwarder.ProxyProtocolConfig{ReadHeaderTimeout: e2eHeaderTimeout}
+		cfg.ProxyProtocolConfig = &forwarder.ProxyProtocolConfig{ReadHeaderTimeout: headerTimeout}
 		cfg.ProxyLocalhost = forwarder.AllowProxyLocalhost
 		cfg.PromRegistry = prometheus.NewRegistry()
 		if withTLS {
@@ -68,9 +77,6 @@ func childMain(mode string) {
 		addrs, _ := hp.Addr()
 		return addrs[0]
 	}
-	fmt.Printf("READY %s %s %s %s %s\n", start(false, false), ol.Addr().String(), start(true, false), start(false, true), start(true, true))
-	io.Copy(io.Discard, os.Stdin) // parent closes stdin to stop us
-	cancel()
 }
 
 type child struct {
@@ -80,6 +86,7 @@ type child struct {
 	proxyS  string // the HTTPS proxy (TLS on the listener)
 	proxyL  string // rate-limited listener
 	proxyLS string // rate-limited + TLS
+	proxyNT string // ReadHeaderTimeout 0: no limit
 	origin  string
 	stderr  *bytes.Buffer
 	done    chan struct{}
@@ -110,10 +117,10 @@ func startChild() (*child, error) {
 	select {
 	case l := <-lineCh:
 		f := strings.Fields(l)
-		if len(f) != 6 || f[0] != "READY" {
+		if len(f) != 7 || f[0] != "READY" {
 			return nil, fmt.Errorf("child did not start: %q %s", l, c.stderr.String())
 		}
-		c.proxy, c.origin, c.proxyS, c.proxyL, c.proxyLS = f[1], f[2], f[3], f[4], f[5]
+		c.proxy, c.origin, c.proxyS, c.proxyL, c.proxyLS, c.proxyNT = f[1], f[2], f[3], f[4], f[5], f[6]
 	case <-time.After(20 * time.Second):
 		return nil, fmt.Errorf("child start timeout")
 	}
@@ -128,6 +135,8 @@ func (c *child) addrOf(variant string) string {
 		return c.proxyL
 	case "ratelimit+tls":
 		return c.proxyLS
+	case "no-timeout":
+		return c.proxyNT
 	}
 	return c.proxy
 }
@@ -363,8 +372,55 @@ func runE2E(out string, r *rng.R, thorough bool, m *meta) {
 			em.Timeouts = append(em.Timeouts, timeoutProbes(ensure, goodHdr, true, variant)...)
 		}
 	}
+	if thorough {
+		em.Timeouts = append(em.Timeouts, noTimeoutProbe(ensure)...)
+	}
 	m.E2E = em
 	m.Kinds = append(m.Kinds, writeKind(out, "ecases", "ecase", "ecase_model_ok", "ecase_verdict", coq, js, 60, ""))
+}
+
+// noTimeoutProbe: on a listener with ReadHeaderTimeout 0 (documented: no limit) a peer stalls for 5.6 s in the middle of
+// a v1 and of a v2 header and then completes it: both must be served with the advertised address (thorough tier only).
+func noTimeoutProbe(ensure func() *child) []map[string]any {
+	c := ensure()
+	req := request(c.origin)
+	hdrs := [][]byte{[]byte("PROXY TCP4 7.7.7.7 8.8.8.8 77 88\r\n"), v2header(0x21, 0x11, 12, []byte{7, 7, 7, 7, 8, 8, 8, 8, 0, 77, 0, 88})}
+	out := make([]map[string]any, len(hdrs))
+	var wg sync.WaitGroup
+	for i, h := range hdrs {
+		wg.Add(1)
+		go func(i int, h []byte) {
+			defer wg.Done()
+			t0 := time.Now()
+			res := map[string]any{"probe": "stall-5.6s-then-complete-header", "listener": "no-timeout", "header_version": i + 1, "status": -1}
+			out[i] = res
+			conn, err := net.DialTimeout("tcp", c.addrOf("no-timeout"), 2*time.Second)
+			if err != nil {
+				return
+			}
+			defer conn.Close()
+			conn.Write(h[:len(h)/2])
+			time.Sleep(5600 * time.Millisecond)
+			conn.Write(append(append([]byte{}, h[len(h)/2:]...), req...))
+			conn.SetReadDeadline(time.Now().Add(3 * time.Second))
+			resp, err := http.ReadResponse(bufio.NewReader(conn), nil)
+			res["elapsed_ms"] = time.Since(t0).Milliseconds()
+			res["process_alive"] = !c.dead()
+			if err != nil {
+				res["status"] = 0
+				res["error"] = err.Error()
+				return
+			}
+			body, _ := io.ReadAll(resp.Body)
+			resp.Body.Close()
+			res["status"] = resp.StatusCode
+			if k := bytes.Index(body, []byte("xff=")); k >= 0 {
+				res["xff"] = strings.TrimSpace(string(body[k+4:]))
+			}
+		}(i, h)
+	}
+	wg.Wait()
+	return out
 }
 
 func e2eCase(ensure func() *child, h []byte, r *rng.R, goodHdr []byte, em *e2eMeta, variant string) (string, ecaseJSON) {
@@ -563,7 +619,11 @@ func replayE2E(rp replayIn, out string, m *meta) {
 			}
 			return ch
 		}
-		em.Timeouts = timeoutProbes(ensure, []byte("PROXY TCP4 9.9.9.9 8.8.8.8 999 888\r\n"), true, rp.Note)
+		if rp.Note == "no-timeout" {
+			em.Timeouts = noTimeoutProbe(ensure)
+		} else {
+			em.Timeouts = timeoutProbes(ensure, []byte("PROXY TCP4 9.9.9.9 8.8.8.8 999 888\r\n"), true, rp.Note)
+		}
 		if ch != nil && !ch.dead() {
 			ch.stop()
 		}
